@@ -46,7 +46,7 @@ func (o *Obligation) Script(noQuant bool) string {
 	b.WriteString("(set-option :produce-models true)\n(set-logic ALL)\n")
 	b.WriteString(x.u.Preamble())
 	for _, s := range x.u.strOrder {
-		b.WriteString(fmt.Sprintf("(declare-const %s Str)\n", x.u.strLits[s]))
+		b.WriteString(fmt.Sprintf("; string literal %s = %q\n", x.u.strLits[s], s))
 	}
 	for i, a := range x.u.axioms {
 		if (o.WantSat || noQuant) && strings.Contains(a, "(forall ") {
